@@ -287,6 +287,10 @@ func newVfGW(x *vfExec, cfg *vfGWCfg, msgs map[string]vfMsgSpec, extra ...Option
 	if cfg.QueueSize > 0 {
 		opts = append(opts, WithPeerOutboundQueueSize(cfg.QueueSize))
 	}
+	if cfg.Extra["subfilter"] == "limit2" {
+		// the scenario's own topics are allowed; an RPC may carry up to two subscription entries
+		opts = append(opts, WithSubscriptionFilter(WrapLimitSubscriptionFilter(NewAllowlistSubscriptionFilter(cfg.Topics...), 2)))
+	}
 	if cfg.MaxMsgSize > 0 {
 		opts = append(opts, WithMaxMessageSize(cfg.MaxMsgSize))
 	}
@@ -809,6 +813,14 @@ func (g *vfGW) apply(evFull string) {
 		g.fake(arg(1)).send(vfSubRPC(arg(2), true))
 	case "unsub":
 		g.fake(arg(1)).send(vfSubRPC(arg(2), false))
+	case "sub2":
+		// sub2:P:T+U -- ONE RPC announcing two topics
+		rpc := &RPC{}
+		for _, t := range strings.Split(arg(2), "+") {
+			t, yes := t, true
+			rpc.Subscriptions = append(rpc.Subscriptions, &pb.RPC_SubOpts{Topicid: &t, Subscribe: &yes})
+		}
+		g.fake(arg(1)).send(rpc)
 	case "graft":
 		g.fake(arg(1)).send(vfGraftRPC(arg(2)))
 	case "prune":
